@@ -81,6 +81,9 @@ def gillespie_part(chk, sis, entry):
                 t["scale"] = 2.0 ** -40
             elif k % 9 == 8:
                 t["scale"] = 2.0 ** 30
+            if k % 5 == 2:
+                # a contact network may have self-loops (a node "in contact with itself"): they are inert in the chain
+                t["selfloops"] = True
         expected_states = len(b1.all_keys(consts)) * len(b1.all_states(n, sis))
         if expected_states != eres.distinct:
             raise common.MachineryFailure("replay domain (%d states) differs from TLC's (%d)" % (expected_states, eres.distinct))
